@@ -41,6 +41,9 @@ type SendScenario struct {
 	// SwitchPolicy: before the second dial of the ops dialandsend2 and dial-redial-send the caller
 	// reconfigures the Client with SetTLSPolicy(SwitchPolicy).
 	SwitchPolicy string `json:"switchPolicy,omitempty"`
+	// CancelMidContent: the caller's context (DialAndSendWithContext) is cancelled while the
+	// content of a message is being produced, after the dial has long succeeded.
+	CancelMidContent bool `json:"cancelMidContent,omitempty"`
 	// DialBlocks: the dial function itself blocks until its context is done.
 	DialBlocks bool `json:"dialBlocks,omitempty"`
 	// CtxMs: when > 0 the caller's context carries a deadline of its own, CtxMs from the start
@@ -72,6 +75,11 @@ func switchPolicy(c *mail.Client, sc *SendScenario, run *SendRun, env *NetEnv) {
 }
 
 func callCtx(sc *SendScenario) (context.Context, context.CancelFunc) {
+	if sc.CancelMidContent {
+		ctx, cancel := context.WithCancel(context.Background())
+		MidContentHook = func() { cancel() }
+		return ctx, func() { MidContentHook = nil; cancel() }
+	}
 	if sc.CtxMs > 0 {
 		return context.WithTimeout(context.Background(), time.Duration(sc.CtxMs)*time.Millisecond)
 	}
@@ -254,7 +262,7 @@ func execSendHook(t *testing.T, sc *SendScenario, logger mlog.Logger, hook func(
 					ms = msgsOf(run.Built[0])
 				}
 				run.SendCalls = append(run.SendCalls, env.Call("DialAndSend", func() error {
-					if sc.CtxMs > 0 {
+					if sc.CtxMs > 0 || sc.CancelMidContent {
 						ctx, cancel := callCtx(sc)
 						defer cancel()
 						return c.DialAndSendWithContext(ctx, ms...)
